@@ -34,6 +34,7 @@ import argparse
 import hashlib
 import os
 import random
+import shutil
 import sys
 import threading
 import traceback
@@ -563,6 +564,7 @@ def main():
   thorough = a.tier == 'thorough'
   ntrees = a.trees if a.trees is not None else (8000 if thorough else 800)
   install()
+  scratch = harness.scratch_dir()        # created before the fork: one directory for all workers, removed below
   items = []
   for i in range(ntrees):
     nthreads = 1 + (i % 16)
@@ -590,6 +592,7 @@ def main():
         for n, g in enumerate(failures):
           if (g['kind'], g['sig']) == key and len(f['program']) < len(g['program']):
             failures[n] = f
+  shutil.rmtree(scratch, ignore_errors=True)
   tm = os.times()
   harness.emit(dict(
       evaluated=runs, trees=trees, distinct_nontrivial=len(nontrivial), failing_trees=nfail,
